@@ -12,6 +12,12 @@ CHECKS = {
          'exact integer predicates; complete for all vertex lists of length 0..4 on a 4x4 grid x 81 query points (thorough: +5-vertex '
          'and 5x5), sampled beyond that',
          'trusts the 60-line integer oracle (oracle_geom.cpp, no gdstk headers); coordinates restricted to exactly representable dyadic values', '7/C14'),
+ 'C18': ('fault_enumeration', 'crash-point (prefix) enumeration in forked children under ASan+UBSan with descriptor-count and result monitors',
+         'every prefix length of every generated file (complete per file for files <= 4 KiB) x every reader named by the property; '
+         'the monitor decides on how the child ended, the returned codes/values and /proc/self/fd counts, also after 50 repeated calls '
+         'under RLIMIT_NOFILE=32',
+         'crash points are modelled as prefixes (justified in DESIGN.md 6.1); files are sampled (gdstk-written and independently '
+         'encoded GDSII, gdstk-written OASIS under several option sets)', '6, 7/C18'),
  'C19': ('exploration', 'online differential monitor against an independent number codec (both stream modes) under ASan+UBSan',
          'encode/decode round trips, independent decoding of gdstk bytes and gdstk decoding of alternative legal encodings for GDSII '
          'reals, OASIS integers, deltas, reals and point lists; systematic on all 7-bit and power-of-16 boundaries, sampled elsewhere',
